@@ -297,6 +297,7 @@ class RunCtx:
         self.rec_count: Dict[str, int] = {}
         self.raised: List[BaseException] = []
         self.bad: List[Any] = []
+        self.reused: List[str] = []
         self.defaults: List[Tuple[str, Dict[str, Any], Any]] = []
         self.events: List[Tuple[int, str, Any, Any]] = []
         self.saves: List[Tuple[int, str, Any]] = []
@@ -327,7 +328,15 @@ class RunCtx:
         self._rec("start", node, (k, self.loop.iterations, self.loop.time()))
         return k
 
-    def begin(self, node: str, kwargs: Dict[str, Any]) -> Inv:
+    def begin(self, node: str, kwargs: Dict[str, Any], instance: Any = None) -> Inv:
+        if instance is not None:
+            # "a new node object per invocation": state kept on self must not survive an invocation
+            if getattr(instance, "_verif_used", False):
+                self.reused.append(node)
+            try:
+                instance._verif_used = True
+            except Exception:  # noqa: BLE001
+                pass
         k = self.count.get(node, 0)
         self.count[node] = k + 1
         s = self._rec("body", node, k)
@@ -392,7 +401,7 @@ def _make_process(name: str, mode: str) -> Any:
         async def process(self: Any, **kwargs: Any) -> Any:
             rc: RunCtx = CUR.get()
             rc.start(name)
-            inv = rc.begin(name, kwargs)
+            inv = rc.begin(name, kwargs, self)
             if rc.hold is not None and name in rc.hold:
                 await rc.loop.create_future()  # never completes
             d = rc.beh.dur(rc.spec.by_name[name], inv.k)
@@ -402,13 +411,13 @@ def _make_process(name: str, mode: str) -> Any:
         def process(self: Any, **kwargs: Any) -> Any:  # type: ignore[misc]
             rc: RunCtx = CUR.get()
             rc.start(name)
-            inv = rc.begin(name, kwargs)
+            inv = rc.begin(name, kwargs, self)
             return rc.finish(inv, self)
     else:
         def process(self: Any, **kwargs: Any) -> Any:  # type: ignore[misc]
             # start was logged at submission by the executor stub
             rc: RunCtx = CUR.get()
-            inv = rc.begin(name, kwargs)
+            inv = rc.begin(name, kwargs, self)
             return rc.finish(inv, self)
     return process
 
